@@ -642,3 +642,164 @@ Proof.
   exists j. split; [exact Hj|].
   destruct Hc as [Hc|Hc]; [exact Hc|]. rewrite Hc. left. reflexivity.
 Qed.
+
+(* ---------- the plain codec: truncation ---------- *)
+Lemma plain_decode_ext p q m rest :
+  plain_decode p = DOk (m, rest) -> plain_decode (p ++ q) = DOk (m, rest ++ q).
+Proof.
+  unfold plain_decode.
+  destruct (read_u64 p) as [[l s1]|e] eqn:E1; cbn [dbind]; [|discriminate].
+  rewrite (read_u64_ext _ q _ _ E1). cbn [dbind].
+  destruct (read_bytes_limit <? l); [discriminate|].
+  destruct (read_full l s1) as [[buf s2]|e] eqn:E2; cbn [dbind]; [|discriminate].
+  rewrite (read_full_ext _ _ q _ _ E2). cbn [dbind].
+  destruct (lift (msg_unmarshal buf)) as [m'|e]; cbn [dbind]; [|discriminate].
+  intro H. inversion H; subst. reflexivity.
+Qed.
+
+Lemma plain_decode_err_ext p q e :
+  plain_decode p = DErr e -> eof_like e \/ plain_decode (p ++ q) = DErr e.
+Proof.
+  unfold plain_decode.
+  destruct (read_u64 p) as [[l s1]|e1] eqn:E1; cbn [dbind].
+  2:{ intro H; inversion H; subst. left. eapply read_u64_err_inv; eauto. }
+  rewrite (read_u64_ext _ q _ _ E1). cbn [dbind].
+  destruct (read_bytes_limit <? l); [intro H; right; exact H|].
+  destruct (read_full l s1) as [[buf s2]|e2] eqn:E2; cbn [dbind].
+  2:{ intro H; inversion H; subst. left. eapply read_full_err_inv; eauto. }
+  rewrite (read_full_ext _ _ q _ _ E2). cbn [dbind].
+  destruct (lift (msg_unmarshal buf)) as [m'|e3]; cbn [dbind]; [discriminate|].
+  intro H. right. exact H.
+Qed.
+
+Lemma plain_decode_consumes s m rest : plain_decode s = DOk (m, rest) -> (length rest < length s)%nat.
+Proof.
+  unfold plain_decode.
+  destruct (read_u64 s) as [[l s1]|e] eqn:E1; cbn [dbind]; [|discriminate].
+  destruct (read_bytes_limit <? l); [discriminate|].
+  destruct (read_full l s1) as [[buf s2]|e] eqn:E2; cbn [dbind]; [|discriminate].
+  destruct (lift (msg_unmarshal buf)) as [m'|e]; cbn [dbind]; [|discriminate].
+  intro H. inversion H; subst.
+  apply read_u64_ok_inv in E1. destruct E1 as [a [-> Ha]].
+  apply read_full_ok_inv in E2. destruct E2 as [-> _].
+  rewrite !app_length. unfold len in Ha. lia.
+Qed.
+
+Lemma plain_decode_all_fuel : forall f1 f2 s,
+  (length s < f1)%nat -> (length s < f2)%nat -> plain_decode_all f1 s = plain_decode_all f2 s.
+Proof.
+  induction f1 as [|f1 IH]; intros f2 s H1 H2; [lia|].
+  destruct f2 as [|f2]; [lia|]. cbn [plain_decode_all].
+  destruct (plain_decode s) as [[m s']|e] eqn:E; [|reflexivity].
+  apply plain_decode_consumes in E. rewrite (IH f2 s'); [reflexivity|lia|lia].
+Qed.
+
+Lemma plain_prefix_fuel q : forall fuel p ms e ms' e',
+  (length (p ++ q) < fuel)%nat ->
+  plain_decode_all fuel (p ++ q) = (ms, e) -> plain_decode_all fuel p = (ms', e') ->
+  exists j, ms' = firstn j ms /\ (eof_like e' \/ (ms' = ms /\ e' = e)).
+Proof.
+  induction fuel as [|f IH]; intros p ms e ms' e' Hf Hfull Hpre; [lia|].
+  cbn [plain_decode_all] in *.
+  destruct (plain_decode p) as [[m r]|ep] eqn:Ep.
+  - rewrite (plain_decode_ext _ q _ _ Ep) in Hfull.
+    destruct (plain_decode_all f (r ++ q)) as [ms1 e1] eqn:E1.
+    destruct (plain_decode_all f r) as [ms1' e1'] eqn:E1'.
+    inversion Hfull; subst. inversion Hpre; subst.
+    apply plain_decode_consumes in Ep.
+    destruct (IH r ms1 e ms1' e') as [j [Hj Hc]]; [rewrite app_length in *; lia|exact E1|exact E1'|].
+    exists (S j). split.
+    + rewrite Hj. reflexivity.
+    + destruct Hc as [Hc|[Hc1 Hc2]]; [left; exact Hc|right; split; [f_equal; exact Hc1|exact Hc2]].
+  - inversion Hpre; subst. exists 0%nat. split; [reflexivity|].
+    destruct (plain_decode_err_ext _ q _ Ep) as [Hl|Hr]; [left; exact Hl|].
+    rewrite Hr in Hfull. inversion Hfull; subst. right. split; reflexivity.
+Qed.
+
+Theorem plain_truncation p q :
+  exists j, fst (plain_run p) = firstn j (fst (plain_run (p ++ q))) /\
+            (eof_like (snd (plain_run p)) \/ plain_run p = plain_run (p ++ q)).
+Proof.
+  unfold plain_run.
+  rewrite (plain_decode_all_fuel (S (length p)) (S (length (p ++ q))) p) by (rewrite ?app_length; lia).
+  destruct (plain_decode_all (S (length (p ++ q))) (p ++ q)) as [ms e] eqn:E1.
+  destruct (plain_decode_all (S (length (p ++ q))) p) as [ms' e'] eqn:E2.
+  destruct (plain_prefix_fuel q (S (length (p ++ q))) p ms e ms' e' (Nat.lt_succ_diag_r _) E1 E2) as [j [Hj Hc]].
+  exists j. cbn [fst snd]. split; [exact Hj|].
+  destruct Hc as [Hc|[Hc1 Hc2]]; [left; exact Hc|right; rewrite Hc2, <- Hc1; reflexivity].
+Qed.
+
+Theorem plain_truncated_wf ms p q :
+  plain_seq_ok ms = true -> plain_encode_all ms = p ++ q ->
+  exists j, fst (plain_run p) = firstn j ms /\ eof_like (snd (plain_run p)).
+Proof.
+  intros Hok Hs. destruct (plain_truncation p q) as [j [Hj Hc]].
+  rewrite <- Hs, (plain_roundtrip ms Hok) in *. cbn [fst] in Hj.
+  exists j. split; [exact Hj|].
+  destruct Hc as [Hc|Hc]; [exact Hc|]. rewrite Hc. left. reflexivity.
+Qed.
+
+(* ---------- no panic, no exhausted fuel: for EVERY stream ---------- *)
+Lemma read_entries_no_panic : forall fuel cnt acc s, read_entries fuel cnt acc s <> DErr DPanic.
+Proof.
+  induction fuel as [|f IH]; intros cnt acc s; cbn [read_entries].
+  - destruct (cnt =? 0); discriminate.
+  - destruct (cnt =? 0); [discriminate|].
+    destruct (read_u64 s) as [[size s1]|e] eqn:E1; cbn [dbind].
+    2:{ apply read_u64_err_inv in E1. destruct E1; subst; discriminate. }
+    destruct (read_bytes_limit <? size) eqn:EL; [discriminate|].
+    rewrite make_bytes_ok by lia. rewrite andb_false_r.
+    destruct (read_full size s1) as [[buf s2]|e] eqn:E2; cbn [dbind].
+    2:{ apply read_full_err_inv in E2. destruct E2; subst; discriminate. }
+    destruct (lift (entry_unmarshal buf)) as [e|e] eqn:E3; cbn [dbind].
+    2:{ unfold lift in E3. destruct (entry_unmarshal buf); inversion E3. discriminate. }
+    apply IH.
+Qed.
+
+Theorem v2_decode_no_panic local remote st s :
+  v2_decode local remote st s <> DErr DPanic /\ v2_decode local remote st s <> DErr DFuel.
+Proof.
+  destruct s as [|typ s1]; [split; discriminate|]. cbn [v2_decode].
+  destruct (typ =? frame_link_heartbeat); [split; discriminate|].
+  destruct (typ =? frame_app_entries).
+  { destruct (negb (remote =? g_node (st_fromg st)) || negb (local =? g_node (st_tog st))); [split; discriminate|].
+    destruct (read_u64 s1) as [[l s2]|e] eqn:E1; cbn [dbind].
+    2:{ apply read_u64_err_inv in E1. destruct E1; subst; split; discriminate. }
+    destruct (read_bytes_limit / 8 <? l) eqn:EL; [split; discriminate|].
+    rewrite make_entries_ok by lia.
+    destruct (read_entries (S (length s2)) l [] s2) as [[es s3]|e] eqn:E2; cbn [dbind].
+    2:{ split; intro H; inversion H; subst.
+        - eapply read_entries_no_panic; eauto.
+        - eapply read_entries_no_fuel; [|exact E2]. lia. }
+    destruct (read_u64 s3) as [[commit s4]|e] eqn:E3; cbn [dbind]; [split; discriminate|].
+    apply read_u64_err_inv in E3. destruct E3; subst; split; discriminate. }
+  destruct (typ =? frame_app); [|split; discriminate].
+  destruct (read_u64 s1) as [[size s2]|e] eqn:E1; cbn [dbind].
+  2:{ apply read_u64_err_inv in E1. destruct E1; subst; split; discriminate. }
+  destruct (read_bytes_limit <? size) eqn:EL; [split; discriminate|].
+  rewrite make_bytes_ok by lia. rewrite andb_false_r.
+  destruct (read_full size s2) as [[buf s3]|e] eqn:E2; cbn [dbind].
+  2:{ apply read_full_err_inv in E2. destruct E2; subst; split; discriminate. }
+  destruct (lift (msg_unmarshal buf)) as [m'|e] eqn:E3; cbn [dbind]; [split; discriminate|].
+  unfold lift in E3. destruct (msg_unmarshal buf); inversion E3. split; discriminate.
+Qed.
+
+Theorem v2_run_no_panic local remote s :
+  snd (v2_run local remote s) <> DPanic /\ snd (v2_run local remote s) <> DFuel.
+Proof.
+  unfold v2_run. generalize st0. assert (H : (length s < S (length s))%nat) by lia. revert H.
+  generalize (S (length s)) as fuel. intro fuel. revert s.
+  induction fuel as [|f IH]; intros s Hf st; [lia|]. cbn [v2_decode_all].
+  destruct (v2_decode local remote st s) as [[[m st'] s']|e] eqn:E.
+  - apply v2_decode_consumes in E.
+    specialize (IH s' ltac:(lia) st'). destruct (v2_decode_all f local remote st' s') as [ms e]. exact IH.
+  - cbn [snd]. pose proof (v2_decode_no_panic local remote st s) as [H1 H2]. rewrite E in *.
+    split; intro; subst; congruence.
+Qed.
+
+Theorem v2_coupling_run local remote ms :
+  v2_seq_ok local remote st0 ms = true ->
+  v2_dec_state (S (length (v2_encode_all st0 ms))) local remote st0 (v2_encode_all st0 ms) = v2_enc_state st0 ms.
+Proof.
+  intro H. apply v2_coupling; [|assumption]. pose proof (v2_encode_all_length ms st0). lia.
+Qed.
